@@ -488,3 +488,6 @@ Proof.
   exists b. split; [reflexivity|]. apply of_bytes_noncanonical_length; [exact H|].
   intros E. apply N. unfold to_text. rewrite E. apply (b58_encode_decode _ _ D).
 Qed.
+
+Lemma derive_fast_eq enc : derive_fast enc = derive sha256 enc.
+Proof. reflexivity. Qed.
